@@ -95,6 +95,41 @@ def obj_matrix(g, p):
     return base_matrix(nm, p)
 
 
+class GateViewsDisagree(Exception):
+    pass
+
+
+_BASE_NAMES = ("I", "X", "Y", "Z", "H", "S", "T", "P", "SWAP")
+
+
+def name_matrix(name, p):
+    """matrix of a gate as its NAME says (what the text exporters, the decompiler and gate_stats go by):
+    'C' * controls + base name"""
+    k = 0
+    while name not in _BASE_NAMES and name.startswith("C"):
+        name, k = name[1:], k + 1
+    m = base_matrix(name, p)
+    return controlled(m, k) if k else m
+
+
+def checked_matrix(g, p):
+    """the gate's matrix by class and attributes (what the qiskit exporter goes by) -- which must be the matrix its name
+    stands for: a gate whose two faces disagree has no single action"""
+    np = _np()
+    m = obj_matrix(g, p)
+    nm = getattr(g, "name", None)
+    if isinstance(nm, str):
+        try:
+            m2 = name_matrix(nm, p)
+        except ValueError:
+            raise GateViewsDisagree(f"{type(g).__name__} is called {nm!r}")
+        if m2.shape != m.shape or not np.allclose(m, m2):
+            raise GateViewsDisagree(f"{type(g).__name__} (controls={getattr(g, 'n_controls', 0)}) is called {nm!r}")
+        if getattr(g, "n_qubits", None) is not None and 2 ** g.n_qubits != m.shape[0]:
+            raise GateViewsDisagree(f"{type(g).__name__} called {nm!r} says n_qubits={g.n_qubits}")
+    return m
+
+
 def apply(U, m, wires, n):
     """U <- lift(m, wires) @ U, wire i = axis i of the 2^n index (axis 0 most significant)"""
     np = _np()
@@ -125,7 +160,7 @@ def unitary_of_circuit(qc):
     for g, w, p in qc.gates:
         if type(g).__name__ in ("Barrier", "NopGate") or getattr(g, "n_qubits", 1) == 0:
             continue
-        U = apply(U, obj_matrix(g, p), list(w), n)
+        U = apply(U, checked_matrix(g, p), list(w), n)
     return U
 
 
